@@ -22,7 +22,7 @@ HasSt(r) == "st" \in DOMAIN r
 HasDisk(r) == "disk" \in DOMAIN r
 
 EmptyHist(r) == [accepted |-> {}, seen |-> <<>>, cValid |-> FALSE, cBase |-> Zero, cEmission |-> Zero,
-                 cfg |-> r.cfg, unit |-> r.unit, sc |-> r.sc]
+                 cfg |-> r.cfg, unit |-> r.unit, sc |-> r.sc, crashed |-> FALSE, restarts |-> 0, lastFault |-> "", synced |-> FALSE]
 InitHist(r) == IF HasDisk(r) /\ HasSt(r)
                THEN [EmptyHist(r) EXCEPT !.cValid = TRUE, !.cBase = BaseTotal(r.disk), !.cEmission = r.st.emission]
                ELSE EmptyHist(r)
@@ -41,8 +41,11 @@ NextHist(r) ==
    IF r.kind = "DeliverTx" /\ r.panic = ""
    THEN [hist EXCEPT !.accepted = IF r.resp.code = 0 THEN @ \cup {r.tx.hash} ELSE @,
                      !.seen = IF r.tx.hash \in DOMAIN @ THEN @ ELSE @ @@ (r.tx.hash :> r.resp.code)]
-   ELSE IF r.kind = "Commit" /\ r.panic = "" /\ HasDisk(r) /\ HasSt(r)
+   ELSE IF r.kind \in {"Commit", "Recovered"} /\ r.panic = "" /\ HasDisk(r) /\ HasSt(r)
    THEN [hist EXCEPT !.cValid = TRUE, !.cBase = BaseTotal(r.disk), !.cEmission = r.st.emission]
+   ELSE IF r.kind = "Crash" THEN [hist EXCEPT !.crashed = TRUE, !.cValid = FALSE, !.lastFault = IF "fault" \in DOMAIN r THEN r.fault ELSE "?"]
+   ELSE IF r.kind = "Restart" THEN [hist EXCEPT !.restarts = @ + 1]
+   ELSE IF r.kind = "Restored" THEN [hist EXCEPT !.synced = TRUE, !.cValid = FALSE]
    ELSE hist
 
 TraceStep ==
@@ -53,7 +56,7 @@ TraceStep ==
    /\ ev' = Rec(l + 1)
    /\ st' = IF HasSt(Rec(l + 1)) THEN Rec(l + 1).st ELSE st
    /\ disk' = IF HasDisk(Rec(l + 1)) THEN Rec(l + 1).disk ELSE disk
-   /\ StepProps
+   /\ IF HasSt(Rec(l + 1)) THEN StepProps ELSE LeanProps      \* lean records carry digests only: state-based clauses need the state
    /\ hist' = NextHist(Rec(l + 1))
 
 TraceReset ==
